@@ -227,6 +227,8 @@ def check(rep, F, tier, replay=None):
         if not (has_len and has_ext) or badc:
             rep.violation("BOOT-set", "fake_full_tx|%s" % ("no-set" if not (has_len and has_ext) else "vec"), "fake_full_tx no longer merges the Byron addresses of inputs and collateral in a BTreeSet (calls on the merged collection: %s): an address funding both a regular and a collateral input gets two fake witnesses, the predicted size exceeds the signed size by more than one key witness" % (sorted(set(H.short(b) for b in badc)) or "no BTreeSet::extend / len"), {})
         rep.floor("calls consuming the collected Byron addresses in fake_full_tx", 4, n_b)
+    from ruleutil import ref_size_pass_rule
+    ref_size_pass_rule(rep, F)
     return rep.finish(
         EXPLANATION,
         ["tables/c18_cert_signers.json transcribes the ledger's required-key rules", "fake witnesses have real sizes (fakes.rs)", "Ed25519KeyHashes de-duplicates (C16)"],
